@@ -31,6 +31,9 @@ type C04Doc struct {
 var c04Programs = []string{
 	"{}", "{ print }", "", "{ x = $.a.b.c ; y = $[3] ; z = $.items[9].k }", "{ n = $.length() ; if ($ == null) { print 1 } }",
 	"BEGINFILE { r = $ } ENDFILE { print r is object }", "{ for (k, v in $) { t = v } }", "$.a > 1 { c++ } END { print c }",
+	// programs that assign, but only to variables of their own: loop variables and copies of scalars
+	"{ for (v in $) { v = 7 } }", "{ for (k, v in $) { v = 0 ; k = \"z\" } }", "{ for (v in $) { v += 1 ; v = v * 2 } for (k, w in $) { w -= 1 ; w /= 2 } }",
+	"{ x = $[0] ; x = 9 ; x++ ; y = $.a ; y += 1 ; y = \"s\" }", "{ for (v in $) { for (w in v) { w = 1 } } }",
 }
 
 func c04DocCheck(c *C04Doc) string {
